@@ -40,6 +40,62 @@ def has_nonfinite(s):
     return False
 
 
+def operator_built(ctx):
+    """directed: schemas built with the DSL's OPERATORS — `|` in every association over 2-5 operands (operands that are
+    unions themselves included), `+` chains of dicts, make_required — alone and nested in lists / dicts / unions"""
+    from d42 import optional
+    from d42.utils import make_required
+    leaves = [lambda: schema.int, lambda: schema.str("a"), lambda: schema.none, lambda: schema.list(schema.int),
+              lambda: schema.dict({"a": schema.int}), lambda: schema.float(1.5), lambda: schema.bool, lambda: schema.int(3),
+              lambda: schema.any(schema.bytes, schema.date)]
+    out = []
+
+    def trees(lo, hi):
+        """every binary association of leaves[lo:hi] (in order)"""
+        if hi - lo == 1:
+            return [leaves[lo % len(leaves)]]
+        res = []
+        for mid in range(lo + 1, hi):
+            for l in trees(lo, mid):
+                for r in trees(mid, hi):
+                    res.append(lambda l=l, r=r: l() | r())
+        return res
+    builders = []
+    for n in (2, 3, 4, 5):
+        for start in (0, 2, 5):
+            builders += trees(start, start + n)
+    builders += [
+        lambda: schema.any(schema.int, schema.str) | schema.any(schema.none, schema.bool),
+        lambda: schema.any(schema.int | schema.str, schema.none | schema.bool),
+        lambda: schema.int | schema.any(schema.str, schema.none),
+        lambda: schema.any(schema.int, schema.str) | schema.none,
+        lambda: (schema.int | schema.str) | (schema.none | schema.bool) | (schema.float | schema.bytes),
+        lambda: schema.any(schema.any(schema.any(schema.int, schema.str), schema.none), schema.bool) | schema.any(schema.float),
+        lambda: schema.dict({"a": schema.int}) + schema.dict({"b": schema.str}),
+        lambda: schema.dict({"a": schema.int, ...: ...}) + schema.dict({optional("b"): schema.str}),
+        lambda: (schema.dict({"a": schema.int}) + schema.dict({"a": schema.str, "c": schema.none})) + schema.dict({...: ...}),
+        lambda: schema.dict({optional("a"): schema.int}) + schema.dict({"a": schema.int | schema.none}),
+        lambda: make_required(schema.dict({optional("a"): schema.int, optional("b"): schema.str | schema.none})),
+        lambda: make_required(schema.dict({optional("a"): schema.int, optional("b"): schema.str}), ["a"]),
+        lambda: make_required(schema.dict({optional("a"): schema.int}) + schema.dict({optional("b"): schema.any})),
+    ]
+    for mk in builders:
+        try:
+            u = mk()
+        except Exception:  # noqa: BLE001
+            ctx.count("operator_built_undeclarable")
+            continue
+        for wrap in (lambda x: x, lambda x: schema.list(x), lambda x: schema.list([x, ...]),
+                     lambda x: schema.dict({"k": x, optional("o"): x}), lambda x: schema.any(x, schema.datetime),
+                     lambda x: x | schema.uuid4, lambda x: schema.uuid4 | x):
+            try:
+                out.append((wrap(u), None))
+            except Exception:  # noqa: BLE001
+                ctx.count("operator_built_undeclarable")
+    ctx.count("operator_built_schemas", len(out))
+    return out
+
+
 def run(ctx):
     runner.prove(ctx, MODULE, THEOREMS, FILES)
     pairs = valcases.scalar_corpus() + valcases.schema_batch(ctx, ctx.n(150, 1200), customs=False, aliases=False,
@@ -56,6 +112,7 @@ def run(ctx):
             extra.append((substitute(s, w), w))
         except Exception:
             pass
+    extra += operator_built(ctx)
     # every schema a declaration chain can build is declarable too — satisfiable or not, in any declaration order
     from .. import gen_chain as GC
     from .C11 import UNIVERSE
@@ -71,6 +128,7 @@ def run(ctx):
         except Exception:
             pass
     for facade, u in UNIVERSE.items():
+        facade = u.get("facade", facade)
         for value in u["values"]:
             for combo in itertools.permutations(u["ops"], 2):
                 if combo[0][0] == combo[1][0]:
